@@ -23,7 +23,7 @@ CLAIMS = {
             "DESIGN 4/C02, 11", TECH + " over a structured FS ghost state; filtered id collections for prefix resolution", FS_NOTE),
     "C03": ("other", "One Hoare triple per mutating operation (init, remove, clear, reset, re-key _save, move, clone, statepoint setter, update_statepoint, open_job, Job.__init__): each preserves the "
             "job class invariant and the frame 'every other job untouched'; the lift to arbitrary histories is the induction over these triples (stated, not mechanised) and is sampled by the "
-            "bounded model-based histories: level 'other'. Added in the seed rounds: __copy__, the state point setter with a shallow-copy sibling, _StatePointDict.load (fills the in-memory data), Job.move with an open document handle.",
+            "bounded model-based histories: level 'other'. Added in the seed rounds: __copy__, the state point setter with a shallow-copy sibling, _StatePointDict.load (fills the in-memory data), Job.move with an open document handle. Round 11: Project.clone with a stale cached state point on the cloned handle (also under C01).",
             "DESIGN 4/C03, 11", TECH + ": class invariant + per-operation triples", FS_NOTE),
     "C04": ("other", "Re-key (_StatePointDict._save) proved for an arbitrary number of live handles: directory moved with all entries, new state point written, no backup left, every handle follows; "
             "DestinationExistsError implies byte-identical state; occupied destination never clobbered. Job.move, Project.clone, the statepoint setter and update_statepoint (conflict => KeyError "
@@ -49,7 +49,7 @@ CLAIMS = {
             "(_get_statepoint, _read_cache, update_cache, Job.init, move, re-key, statepoint setter); update_cache postcondition: the file lists exactly the workspace ids, 'nothing to do' iff it "
             "already did; _get_statepoint returns a value hashing to the id whether it came from the cache or the workspace (transparency); _update_in_memory_cache proved (exactly the workspace ids "
             "afterwards; pool.map by an arbitrary-element rule on the real closure) on top of _split_and_print_progress (the chunks tile the list for every length and chunk count). "
-            "ThreadPool.map = one call per element is assumed: level 'other'. Added in the seed rounds: Job.init with a stale cached state point in its precondition, update_statepoint, open_job by id and the listing functions are checked under C08 as well.", "DESIGN 4/C08, 11", TECH + ", cache maps as z3 arrays", FS_NOTE),
+            "ThreadPool.map = one call per element is assumed: level 'other'. Added in the seed rounds: Job.init with a stale cached state point in its precondition, update_statepoint, open_job by id and the listing functions are checked under C08 as well. Round 11: _get_statepoint on the first look-up of a session with a stale cache file.", "DESIGN 4/C08, 11", TECH + ", cache maps as z3 arrays", FS_NOTE),
     "C09": ("other", "Hash validation on load (_StatePointDict.load: returns only data whose id matches, otherwise JobsCorruptedError naming the job), Job.init(force), Project.check (accumulator "
             "invariant: names exactly the damaged ids, reads the workspace not the cache) and Project.repair (per-job triple, cache first, no exception escapes) discharged. 'Every repairable job "
             "is repaired' over whole workspaces is bounded (damage scenarios).", "DESIGN 4/C09, 11", TECH, FS_NOTE),
@@ -60,13 +60,13 @@ CLAIMS = {
             TECH + " with effect traces; bounded crash injection", FS_NOTE),
     "C11": ("other", "Crash-point invariants asserted after every file-system effect on every path, and exceptional postconditions for an injected OSError (symbolic errno != ENOENT) at every external, "
             "for Job.init, _StatePointDict.save/load, the re-key protocol, move, clone, remove, clear, reset, check and the repair body. Multi-step externals (rmtree, copytree) by assumed "
-            "partial-effect contracts; a bounded fault / crash injection layer runs the same operations natively. Added in the seed rounds: update_statepoint (one whole assignment) and os.path.isfile under stat faults in the re-key.",
+            "partial-effect contracts; a bounded fault / crash injection layer runs the same operations natively. Added in the seed rounds: update_statepoint (one whole assignment) and os.path.isfile under stat faults in the re-key. Round 11: the Job.statepoint getter (a failed lazy load leaves the handle lazy).",
             "DESIGN 4/C11, 11", TECH + " with effect traces and fault injection at every external", FS_NOTE),
     "C12": ("other", "Rely/guarantee verification at file-system-call granularity of the actor functions Project.__init__, _mkdir_p and Job.init (executed down through Job.statepoint, "
             "_StatePointDict.load/save and the dependency's read/write contracts): under interference by any number of other actors of the script set before every file-system call, no "
             "exception escapes, the job directory holds a valid state point on return, and every own effect is a step the others may rely on. This covers every interleaving, not a sample. "
             "Document-write visibility and torn-read freedom rest on the dependency's atomic-replace contract (assumed; see C10); listing under interference and the whole-run lemma are not "
-            "mechanised; a bounded two-process scheduler (one preemption at every file-system step of one process) runs the actor scripts natively: level 'other'. Added in the seed rounds: the document getter never writes (a first read cannot race with a write) and _job_dirs tolerates a missing workspace; reader-preempted schedules in the bounded layer.",
+            "mechanised; a bounded two-process scheduler (one preemption at every file-system step of one process) runs the actor scripts natively: level 'other'. Added in the seed rounds: the document getter never writes (a first read cannot race with a write) and _job_dirs tolerates a missing workspace; reader-preempted schedules in the bounded layer. Round 11: open_job(statepoint) (the handle knows its state point whether or not a directory of that id exists).",
             "DESIGN 4/C12, 11", TECH + " in rely/guarantee mode: interference before every external, guarantee obligation per effect", FS_NOTE),
     "C13": ("other", "One directory level of the file walk (_sync_job_workspaces) proved for all listings, exclude sets and strategies: left-only files copied iff not excluded, left-only directories iff "
             "recursive, differing files iff the strategy says so, nothing else copied, every copy goes to the same relative place, common sub-directories visited with all options forwarded (the recursive "
@@ -76,7 +76,7 @@ CLAIMS = {
     "C14": ("other", "'Overwritten iff the strategy returns true' and 'FileSyncConflict before touching any differing file' proved per directory level; FileSync.update / always / never proved against "
             "an os.stat model (update: iff the source is strictly newer); DocSync.ByKey per nesting level: a key is overwritten iff absent or differing-scalar-and-selected, differing mappings are "
             "merged recursively under the full dotted prefix, unselected conflicts recorded under their full name; create_backup / create_doc_backup: on any exception of the body the document "
-            "is its pre-sync content and the backup is removed. Added in the seed rounds: DocSync.update against Python equality being coarser than JSON identity, the stale-backup cases of both backup functions, no buffering block around the forwarded sync call.", "DESIGN 4/C14, 11",
+            "is its pre-sync content and the backup is removed. Added in the seed rounds: DocSync.update against Python equality being coarser than JSON identity, the stale-backup cases of both backup functions, no buffering block around the forwarded sync call. Round 11: the backup context managers aborted by something that is not an Exception.", "DESIGN 4/C14, 11",
             TECH + ", generator context managers executed at their yield point", SYNC_NOTE),
     "C15": ("other", "Dry-run frame proved for every method of _FileModifyProxy and _DocProxy (no file-system call, no document mutation, completes like the live run), for ByKey's nested writes (gated "
             "destination required at the recursive call) and up through sync_jobs (never initialises the destination in a dry run); deep / recursive / exclude / strategy / proxy forwarding proved as call-site "
@@ -98,15 +98,15 @@ CLAIMS = {
             TECH + " of _update_view; bounded contract checking of the view as a whole", BASE_TRUST),
     "C18": ("other", "diff_jobs proved against set algebra on flattened (key, value) pairs for 0..3 jobs of arbitrary content (each diff = pairs not shared by all; common + diff reconstructs); "
             "detect_schema proved to summarise exactly the selected existing jobs (an empty selection selects nothing) with exclude_const forwarded; _build_index per job; _build_job_statepoint_index with loop invariants (exactly the state point keys of the indexed jobs; a key is left out iff constants are excluded "
-            "and one value is shared by all jobs). The value index itself (_SearchIndexer.build_index) is bounded (known finding F3). Added in the seed rounds: the flatten / unflatten helpers on a family of concrete mappings; defects F29 and F30 found by the bounded layer and repaired.", "DESIGN 4/C18, 11",
+            "and one value is shared by all jobs). The value index itself (_SearchIndexer.build_index) is bounded (known finding F3). Added in the seed rounds: the flatten / unflatten helpers on a family of concrete mappings; defects F29 and F30 found by the bounded layer and repaired. Round 11: diff_jobs makes leaf values hashable (F31 repaired), _strip_prefix over an arbitrary z3 string, raw values compared with the empty mapping.", "DESIGN 4/C18, 11",
             TECH + "; bounded contract checking against reference summaries", BASE_TRUST),
     "C19": ("other", "_locate_config_dir proved with loop invariants and a decreasing variant over an axiomatised directory chain; Project.get_project (nearest enclosing project, only the directory "
             "itself without search, LookupError conditions), Project.get_job (the last id-like path component, project searched from its parent), Project.init_project (an existing project is "
             "returned without any write; nothing is written before the legacy gate) and the module-level front ends proved on top of it. Whole directory trees incl. symlinks and relative paths "
-            "are bounded. Added in the seed rounds: path queries in the module-level forwarders; non-existent paths and stray signac.rc files in the bounded trees.", "DESIGN 4/C19, 11", TECH + ", inductive loop invariants over a directory-chain theory", BASE_TRUST),
+            "are bounded. Added in the seed rounds: path queries in the module-level forwarders; non-existent paths and stray signac.rc files in the bounded trees. Round 11: _load_config (the user-level file first, the project's own config last).", "DESIGN 4/C19, 11", TECH + ", inductive loop invariants over a directory-chain theory", BASE_TRUST),
     "C20": ("other", "Integer contract of the version gate (_check_schema_compatibility passes iff version == 2, for every integer), _raise_if_older_schema refuses every loadable config of "
             "another version, _locate_config_dir's legacy scan, init_project's legacy gate, and the migration chain (_collect_migrations, apply_migrations, _migrate_v1_to_v2: exactly the "
-            "documented effects in order) discharged; configobj / filelock and end-to-end preservation of every job are bounded (legacy configurations migrated with the real code). Added in the seed rounds: configurations without a version, sessions that use '.' for two projects in turn.",
+            "documented effects in order) discharged; configobj / filelock and end-to-end preservation of every job are bounded (legacy configurations migrated with the real code). Added in the seed rounds: configurations without a version, sessions that use '.' for two projects in turn. Round 11: _load_config (the project's declared schema_version wins over ~/.signacrc).",
             "DESIGN 4/C20, 11", TECH, BASE_TRUST),
 }
 
